@@ -132,6 +132,7 @@ type rtGraph struct {
 	supplied map[string][]int64 // tensors handed to Run: name -> shape
 	noType   map[string]bool    // inputs declared without a TypeProto
 	noShape  map[string]bool    // inputs declared with a tensor type that has no shape
+	initDims map[string][]int64 // shape of an initializer's tensor (default [3])
 }
 
 // arity of the abstract operator types
@@ -158,8 +159,8 @@ func (g *rtGraph) expected() (map[string]string, bool) {
 				isInit = true
 			}
 		}
-		if isInit {
-			continue
+		if _, given := g.supplied[in]; isInit && !given {
+			continue // the initializer is the default; what the caller does supply is held to the declaration
 		}
 		sh, ok := g.supplied[in]
 		if !ok {
@@ -296,6 +297,33 @@ func ruleRunTable(c *Ctx, prop string) {
 			}
 			if graphs[i].noShape == nil {
 				graphs[i].noShape = map[string]bool{}
+			}
+		}
+	}
+	if prop == "C13" {
+		// what the caller supplies for an input that has an initializer is held to the declaration; the initializer
+		// itself is the model's business
+		graphs = append(graphs, []rtGraph{
+			{name: "initializer that is also a graph input, overridden with a tensor of another rank", inputs: []string{"x", "w"}, inDims: map[string][]rtDim{"w": {{dimFixed, 1}, {dimFixed, 3}}}, outputs: []string{"y"}, inits: []string{"w"}, initDims: map[string][]int64{"w": {1, 3}},
+				nodes: []rtNode{{"T2", []string{"x", "w"}, []string{"y"}}}, supplied: map[string][]int64{"x": {3}, "w": {3}}},
+			{name: "initializer that is also a graph input, overridden with another fixed extent", inputs: []string{"x", "w"}, inDims: map[string][]rtDim{"w": {{dimFixed, 1}, {dimFixed, 3}}}, outputs: []string{"y"}, inits: []string{"w"}, initDims: map[string][]int64{"w": {1, 3}},
+				nodes: []rtNode{{"T2", []string{"x", "w"}, []string{"y"}}}, supplied: map[string][]int64{"x": {3}, "w": {1, 2}}},
+			{name: "initializer that is also a graph input, overridden with a tensor that fits the declaration", inputs: []string{"x", "w"}, inDims: map[string][]rtDim{"w": {{dimFixed, 1}, {dimFixed, 3}}}, outputs: []string{"y"}, inits: []string{"w"}, initDims: map[string][]int64{"w": {1, 3}},
+				nodes: []rtNode{{"T2", []string{"x", "w"}, []string{"y"}}}, supplied: map[string][]int64{"x": {3}, "w": {1, 3}}},
+			{name: "initializer that is also a graph input, not supplied, stored with other dims than declared", inputs: []string{"x", "w"}, inDims: map[string][]rtDim{"w": {{dimFixed, 1}, {dimFixed, 3}}}, outputs: []string{"y"}, inits: []string{"w"}, initDims: map[string][]int64{"w": {3}},
+				nodes: []rtNode{{"T2", []string{"x", "w"}, []string{"y"}}}, supplied: map[string][]int64{"x": {3}}},
+		}...)
+		for i := range graphs {
+			if graphs[i].noType == nil {
+				graphs[i].noType = map[string]bool{}
+			}
+			if graphs[i].noShape == nil {
+				graphs[i].noShape = map[string]bool{}
+			}
+			for _, in := range graphs[i].inputs {
+				if _, ok := graphs[i].inDims[in]; !ok {
+					graphs[i].inDims[in] = sym
+				}
 			}
 		}
 	}
@@ -448,7 +476,11 @@ func (c *Ctx) runAbstractGraph(mi *modelInfo, onnx *types.Package, g *rtGraph) (
 	mp := b.obj(onnx, "ModelProto", map[string]pval{"Graph": graph})
 	params := heap.newMap()
 	for _, i := range g.inits {
-		heap.maps[params.i].set(pval{k: pStr, s: i}, newTensor("W:"+i, []int64{3}))
+		ish := []int64{3}
+		if d, ok := g.initDims[i]; ok {
+			ish = d
+		}
+		heap.maps[params.i].set(pval{k: pStr, s: i}, newTensor("W:"+i, ish))
 	}
 	model := heap.newObj(mi.named)
 	heap.objs[model.i].fields[mi.fProto] = mp
